@@ -16,7 +16,7 @@ SOURCES = ['SoupVerif/Properties/C02.lean', 'SoupVerif/Spec/Nth.lean', 'SoupVeri
            'SoupVerif/Model/Nth.lean', 'SoupVerif/Model/Match.lean']
 RULE = ('sibling sequences over {E=li, X=other element, T=text, C=comment} (all sequences up to a length, then random '
         'longer ones), every (A,B) in a square around 0 plus ±len, ±(len±1), the four pseudo-classes, `of S` filters and '
-        'keyword forms; each case is checked three ways: PY select vs the brute-force "exists n>=0" oracle (the '
+        'keyword forms, plus XML sibling sequences whose `li` elements live in two namespaces queried with a default namespace declared (positions count every element sibling; the type of -of-type is (namespace, name)); each case is checked three ways: PY select vs the brute-force "exists n>=0" oracle (the '
         'property itself), PY vs the Lean matcher model on the same document, and the Lean Nth.matchOne on the abstract '
         'walk vs the oracle. Non-trivial = at least one element of the sequence matches and at least one does not.')
 
@@ -24,9 +24,15 @@ NAMES = [(':nth-child', False, False), (':nth-last-child', True, False),
          (':nth-of-type', False, True), (':nth-last-of-type', True, True)]
 
 
-def build(kinds, top_level=False, detached=False):
-    soup = bs4.BeautifulSoup('', 'html.parser')
-    par = soup.new_tag('ul')
+NS_A, NS_B = 'urn:a', 'urn:b'
+NSMAP = {'': NS_A, 'b': NS_B}
+
+
+def build(kinds, top_level=False, detached=False, nsmode=False):
+    """nsmode: an XML document whose `li` siblings live in two namespaces (E: urn:a, N: urn:b), queried with a
+    namespace map that declares urn:a as the default namespace."""
+    soup = bs4.BeautifulSoup('', 'xml' if nsmode else 'html.parser')
+    par = soup.new_tag('ul', namespace=NS_A) if nsmode else soup.new_tag('ul')
     if not top_level:
         soup.append(par)
     holder = soup if top_level else par
@@ -36,8 +42,12 @@ def build(kinds, top_level=False, detached=False):
         elif k == 'C':
             holder.append(bs4.Comment('c'))
         else:
-            el = soup.new_tag('li' if k == 'E' else 'x')
-            if k == 'E':
+            if nsmode:
+                el = (soup.new_tag('li', namespace=NS_A) if k == 'E' else soup.new_tag('li', namespace=NS_B, nsprefix='b') if k == 'N'
+                      else soup.new_tag('x', namespace=NS_A))
+            else:
+                el = soup.new_tag('li' if k in 'EN' else 'x')
+            if k in 'EN':
                 el['class'] = ['s']
             holder.append(el)
     return soup, holder
@@ -48,7 +58,7 @@ def anb_text(a, b):
 
 
 def oracle(els, e, a, b, last, of_type, of_s):
-    sibs = [x for x in els if (not of_type or x.name == e.name) and (not of_s or x.get('class') == ['s'])]
+    sibs = [x for x in els if (not of_type or (x.name, x.namespace) == (e.name, e.namespace)) and (not of_s or x.get('class') == ['s'])]
     if of_s and e.get('class') != ['s']:
         return False
     if last:
@@ -71,6 +81,8 @@ def run(chk):
     for _ in range(150 if quick else 3000):
         L = rng.randint(maxlen + 1, 12)
         seqs.append(tuple(rng.choice('EEXTC') for _ in range(L)))
+    for _ in range(120 if quick else 2500):
+        seqs.append(('NS',) + tuple(rng.choice('EENNXT') for _ in range(rng.randint(1, 9))))
     evaluations = 0
     nontrivial = 0
     py_bad = []      # PY vs oracle  (the property itself)
@@ -79,7 +91,10 @@ def run(chk):
     doc_cases = []
     for kinds in seqs:
         top_level = rng.random() < 0.08
-        soup, holder = build(kinds, top_level)
+        nsmode = kinds[0] == 'NS'
+        if nsmode:
+            kinds = kinds[1:]
+        soup, holder = build(kinds, top_level, nsmode=nsmode)
         els = [c for c in holder.contents if isinstance(c, bs4.Tag)]
         if not els:
             continue
@@ -93,14 +108,16 @@ def run(chk):
             name, last, of_type = rng.choice(NAMES) if quick else NAMES[(a + b) % 4]
             of_s = (not of_type) and rng.random() < 0.2
             sel = f'{name}({anb_text(a, b)}{" of .s" if of_s else ""})'
-            got = sv.select(sel, holder)
+            if nsmode:
+                sel = ('*|*' if not of_s else '*|*') + (f'{name}({anb_text(a, b)}{" of *|*.s" if of_s else ""})')
+            got = sv.select(sel, holder, namespaces=NSMAP if nsmode else None)
             gotset = {id(e) for e in got}
             exp = [e for e in els if oracle(els, e, a, b, last, of_type, of_s)]
             evaluations += 1
             if 0 < len(exp) < len(els):
                 nontrivial += 1
             if {id(e) for e in exp} != gotset:
-                py_bad.append({'kinds': ''.join(kinds), 'selector': sel, 'top_level': top_level,
+                py_bad.append({'kinds': ''.join(kinds), 'selector': sel, 'top_level': top_level, 'nsmode': nsmode,
                                'py': [enc.path_of(e) for e in got], 'expected': [enc.path_of(e) for e in exp]})
             # abstract walk for the Lean Nth service: one request per element
             walk_nodes = list(holder.contents)
@@ -110,13 +127,14 @@ def run(chk):
                 for e in els:
                     if of_s and e.get('class') != ['s']:
                         continue
-                    counted = [1 if (isinstance(x, bs4.Tag) and (not of_type or x.name == e.name)
+                    counted = [1 if (isinstance(x, bs4.Tag) and (not of_type or (x.name, x.namespace) == (e.name, e.namespace))
                                      and (not of_s or x.get('class') == ['s'])) else 0 for x in walk_nodes]
                     idx = [i for i, x in enumerate(walk_nodes) if x is e][0]
                     lines.append(f'(1 {a} {b} 1 ({" ".join(map(str, counted))}) {idx})')
                     line_info.append((''.join(kinds), sel, enc.path_of(e), oracle(els, e, a, b, last, of_type, of_s)))
-            if rng.random() < (0.06 if quick else 0.02):
-                doc_cases.append({'markup': None, 'kinds': ''.join(kinds), 'top_level': top_level, 'selector': sel,
+            if rng.random() < (0.06 if quick else 0.02) or (nsmode and rng.random() < 0.15):
+                doc_cases.append({'markup': None, 'kinds': ''.join(kinds), 'top_level': top_level, 'selector': sel, 'nsmode': nsmode,
+                                  'ns': NSMAP if nsmode else None,
                                   'queries': [('select', enc.path_of(holder), 0)]})
     # keyword forms coincide with An+B instances
     kw = [(':first-child', ':nth-child(1)'), (':last-child', ':nth-last-child(1)'), (':first-of-type', ':nth-of-type(1)'),
@@ -125,12 +143,15 @@ def run(chk):
           (':nth-child(odd)', ':nth-child(2n+1)'), (':nth-child(ODD)', ':nth-child(2N + 1)'),
           (':nth-child(-n+3)', ':nth-child(-1n+3)'), (':nth-child(+5)', ':nth-child(0n+5)'), (':nth-child(n)', ':nth-child(1n+0)'),
           (':nth-child( 2n + 1 )', ':nth-child(2n+1)'), (':nth-child(+n-1)', ':nth-child(1n-1)')]
-    for kinds in seqs[:200]:
-        soup, holder = build(kinds)
+    for kinds in seqs[:200] + [q for q in seqs if q[0] == 'NS'][:80]:
+        nsmode = kinds[0] == 'NS'
+        soup, holder = build(kinds[1:] if nsmode else kinds, nsmode=nsmode)
         for k1, k2 in kw:
             evaluations += 1
-            r1 = [id(e) for e in sv.select(k1, holder)]
-            r2 = [id(e) for e in sv.select(k2, holder)]
+            if nsmode:
+                k1, k2 = '*|*' + k1, '*|*' + k2
+            r1 = [id(e) for e in sv.select(k1, holder, NSMAP if nsmode else None)]
+            r2 = [id(e) for e in sv.select(k2, holder, NSMAP if nsmode else None)]
             if r1 != r2:
                 py_bad.append({'kinds': ''.join(kinds), 'selector': k1, 'equivalent': k2, 'py': len(r1), 'expected': len(r2)})
     # Lean side
@@ -143,17 +164,19 @@ def run(chk):
                 model_bad.append({'kinds': info[0], 'selector': info[1], 'element': info[2], 'oracle': info[3], 'model': r})
         cases = []
         for c in doc_cases:
-            soup, holder = build(tuple(c['kinds']), c['top_level'])
+            soup, holder = build(tuple(c['kinds']), c['top_level'], nsmode=c['nsmode'])
             cases.append((c, soup))
         lines2 = []
         for c, soup in cases:
-            compiled = sv.compile(c['selector'])
+            compiled = sv.compile(c['selector'], c['ns'])
             lines2.append(matchcorr.lean_line(c, soup, compiled))
+            lines2.append(matchcorr.lean_line_e2e(c, soup))       # selector text -> parser model -> matcher model
         resp2 = driver.run(lines2)
-        for (c, soup), r in zip(cases, resp2):
-            py = [[enc.path_of(e) for e in sv.select(c['selector'], enc.node_at(soup, c['queries'][0][1]))]]
-            if enc.parse_sx(r) != py:
-                corr_bad.append({'case': c, 'py': py, 'model': enc.parse_sx(r)})
+        for i, (c, soup) in enumerate(cases):
+            py = [[enc.path_of(e) for e in sv.select(c['selector'], enc.node_at(soup, c['queries'][0][1]), c['ns'])]]
+            ir, e2e = enc.parse_sx(resp2[2 * i]), enc.parse_sx(resp2[2 * i + 1])
+            if ir != py or e2e != [0, py]:
+                corr_bad.append({'case': c, 'py': py, 'model': ir, 'model_end_to_end': e2e})
     chk.samples = [{'kinds': i[0], 'selector': i[1], 'element': i[2], 'matches': i[3]} for i in line_info[:6]]
     chk.coverage.update({'sibling_sequences': len(seqs), 'py_vs_oracle_mismatches': len(py_bad),
                          'model_matchOne_requests': len(lines), 'model_vs_oracle_mismatches': len(model_bad),
@@ -176,8 +199,8 @@ def run(chk):
 
 def replay(chk, path):
     data = json.load(open(path))
-    soup, holder = build(tuple(data['kinds']), data.get('top_level', False))
-    got = [enc.path_of(e) for e in sv.select(data['selector'], holder)]
+    soup, holder = build(tuple(data['kinds']), data.get('top_level', False), nsmode=data.get('nsmode', False))
+    got = [enc.path_of(e) for e in sv.select(data['selector'], holder, NSMAP if data.get('nsmode') else None)]
     print(json.dumps({'py': got, 'expected': data.get('expected')}))
     if 'expected' in data and got != data['expected']:
         print(f'VIOLATION property={PID} replay={path}')
